@@ -9,8 +9,13 @@ git -C /repo worktree add --detach $wt HEAD -q || exit 3
 git -C $wt apply $d/patch.diff 2>/dev/null || ( cd $wt && git checkout -q -- . && patch -p1 -s --fuzz=3 --no-backup-if-mismatch < $d/patch.diff ) || { echo "{\"apply\": false}" > $d/verify.json; git -C /repo worktree remove --force $wt; exit 3; }
 # every demo / test runs in its own network namespace (loopback up): fixed ports cannot clash with other jobs on this machine
 NS="unshare -rn sh -c"
+if [ -f $d/run.sh ]; then
 ( cd $d && timeout 900 $NS "ip link set lo up; exec bash ./run.sh /repo/include" > $t/demo_unchanged.out 2>&1 ); rc0=$?
 ( cd $d && timeout 900 $NS "ip link set lo up; exec bash ./run.sh $wt/include" > $t/demo_changed.out 2>&1 ); rc1=$?
+else
+# behaviour-preserving refactoring: no demonstration of its own; the tree must compile (the named tests are rebuilt below)
+echo "no demonstration (benign refactoring)" > $t/demo_unchanged.out; cp $t/demo_unchanged.out $t/demo_changed.out; rc0=None; rc1=None
+fi
 tests=$(python3 -c "
 import json,re
 m=json.load(open('$d/meta.json'))
